@@ -1,4 +1,5 @@
 """C03 -- the address mapping is a pure function of salt and options, not of history."""
+import ipaddress
 import os
 import random
 import tempfile
@@ -27,7 +28,7 @@ def cases(ctx):
     rng = ctx.rng
     for cfg in ipgen.configs(rng, ctx.per_shard(ctx.pick(500, 36000)), quick=ctx.quick):
         n = rng.choice([1, 2, 5, 20, 60, 200, 400]) if cfg["fam"] == 4 else rng.choice([1, 3, 10, 40])
-        yield {"kind": "hist", "cfg": cfg, "n": n, "hseed": rng.getrandbits(32)}
+        yield {"kind": "hist", "cfg": cfg, "n": n, "hseed": rng.getrandbits(32), "via": rng.choice(["int", "int", "text"])}
     for cfg in ipgen.configs(rng, ctx.pick(1, 6), fam=4, quick=ctx.quick):
         cfg["salter"] = "default"
         cfg["B"] = rng.choice([None, 0, 8])
@@ -103,9 +104,17 @@ def _nosalt_dir(ctx, case):
     ctx.distinct(("nosalt", case["lseed"]))
 
 
-def gen_history(rng, cfg, n):
+def gen_history(rng, cfg, n, via="int"):
     L = ipgen.width(cfg)
     pool = ipgen.addresses(rng, cfg, max(8, n // 3))
+    if via == "text" and L == 32:
+        # through the text function mask-shaped values are left alone: have them, and the addresses mapping onto them, around
+        try:
+            ref = ipgen.build(cfg)
+            for m in rng.sample(ipgen.MASKS[2:-2], 5):
+                pool += [m, ref.deanonymize(m), ref.anonymize(m)]
+        except Exception:
+            pass
     hist = []
     args, results = [], []
     for i in range(n):
@@ -141,9 +150,24 @@ def check_case(ctx, case):
 def _hist(ctx, case):
     cfg = case["cfg"]
     rng = random.Random(case["hseed"])
-    hist = case.get("hist") or gen_history(rng, cfg, case["n"])
+    via = case.get("via", "int")
+    hist = case.get("hist") or gen_history(rng, cfg, case["n"], via)
     B = ipgen.hostbits(cfg)
     S = ipgen.build(cfg)
+    if via == "text":
+        # the same requests as a file run issues them: through anonymize_ip_addr(anonymizer, text, undo_ip_anon=...)
+        nc = load.nc()
+        mk = ipaddress.IPv4Address if cfg["fam"] == 4 else ipaddress.IPv6Address
+
+        def ask(obj, op, a):
+            out = nc.ip.anonymize_ip_addr(obj, " address %s;" % mk(a), undo_ip_anon=(op == "undo"))
+            try:
+                return int(mk(out[len(" address "):-1]))
+            except ValueError:
+                return out
+    else:
+        def ask(obj, op, a):
+            return obj.anonymize(a) if op == "anon" else obj.deanonymize(a)
     if case.get("warmup"):
         # a long-lived anonymizer: many earlier requests (a large file processed before this one)
         wr = random.Random(case["hseed"] ^ 0xABCDEF)
@@ -157,13 +181,16 @@ def _hist(ctx, case):
     for i, (op, a) in enumerate(hist):
         if isinstance(a, (list, tuple)):
             a = results[a[1]] if a[1] < len(results) else 0
+            if not isinstance(a, int):
+                a = 0
         concrete.append([op, a])
-        got = S.anonymize(a) if op == "anon" else S.deanonymize(a)
+        got = ask(S, op, a)
         results.append(got)
         fresh = ipgen.build(cfg)
-        want = fresh.anonymize(a) if op == "anon" else fresh.deanonymize(a)
+        want = ask(fresh, op, a)
         ctx.ev()
         ctx.count("requests_vs_fresh")
+        ctx.count("requests_via_" + via)
         if got != want:
             ctx.violation(dict(case, hist=concrete), "history-dependent-result",
                           "request %d %s(%s) returned %s after this history but %s on a fresh instance"
